@@ -2,7 +2,8 @@
    Only statements, each closed by an `exact`, pinned by a `Check`, followed by
    `Print Assumptions`.  The model is Rename.v (`Tree::change_key`, `GraphInline::change_key`,
    the reference scan, `handle_rename`, the editor's `apply_edits`); [fx : fixes] selects the
-   unchanged tree ([as_found]) or the repairs of notes/fix-rename-*.patch ([repaired]). *)
+   unchanged tree ([as_found]) or the repairs ([repaired]; /repo is `FX false true true true`:
+   front matter, dangling link, one reading of the new name). *)
 From IweV Require Import Str Text Ast RelPath Arena Project Library Rename RenameFacts.
 Local Open Scope string_scope.
 Local Open Scope list_scope.
@@ -47,17 +48,20 @@ Print Assumptions C08_change_key_frame.
 
 (* ---- the taken-name guard ------------------------------------------------------------------------ *)
 
+(* the key the new name stands for exists: refused.  In the repaired tree that key is the name
+   read from the directory of the note that holds the cursor ([new_key_of]: from_rel_link_url
+   new_name (key_parent doc) when fx_subdir, Key::from_file_name new_name as found) *)
 Definition C08_taken_stmt : Prop :=
   forall fx o (g : graph) tables L doc site new_name,
     tlib_of_graph g tables = Ok L ->
-    In (key_from_file_name new_name) (map fst (gr_keys g)) ->
+    In (new_key_of fx doc new_name) (map fst (gr_keys g)) ->
     handle_rename fx o g tables doc site new_name = Ok (RErr (taken_msg new_name)).
 Theorem C08_taken : C08_taken_stmt.
 Proof. exact taken_refused_graph. Qed.
 Check C08_taken : C08_taken_stmt.
 Print Assumptions C08_taken.
 
-(* ---- rename issued from a note in the library root ----------------------------------------------- *)
+(* ---- rename issued from a note in the library root (every variant of the tree) ----------------- *)
 
 (* For every library (keys pairwise different), every link under the cursor of a root note
    that resolves to an existing note k, every free new name written as its key (in the root or
@@ -90,6 +94,62 @@ Theorem C08_root : C08_root_stmt.
 Proof. exact rename_root. Qed.
 Check C08_root : C08_root_stmt.
 Print Assumptions C08_root.
+
+(* ---- rename issued from a note in any directory (the repaired tree) ------------------------------ *)
+
+(* With the new name read once (fx_subdir), C08_root holds from every note and for every spelling
+   of the new name: no hypothesis on the directory of the cursor's note, on `.md` or on the way
+   the name is written is left.  k and new are the link under the cursor and the typed name, both
+   read from the directory of the note that holds the cursor; the operations are overrides of
+   notes of the library other than k, then delete k, create and fill the file of the KEY new
+   (root-relative: a name typed `new` in d/ makes d/new.md, `../new` makes new.md). *)
+Definition C08_subdir_stmt : Prop :=
+  forall (fx : fixes) (o : opts) (L : tlib) (doc url new_name : string),
+    fx_subdir fx = true ->
+    NoDup (tl_keys L) ->
+    In (from_rel_link_url url (key_parent doc)) (tl_keys L) ->
+    ~ In (from_rel_link_url new_name (key_parent doc)) (tl_keys L) ->
+    let k := from_rel_link_url url (key_parent doc) in
+    let new := from_rel_link_url new_name (key_parent doc) in
+    exists (nk : tnote) (ops : list op),
+      tl_find L k = Some nk /\
+      rename_core fx o tree_scan L doc (Ok (Some url)) new_name = Ok (REdits ops) /\
+      (exists ov, ops = ov ++ [OpDelete k; OpCreate new;
+                               OpInsert new (text_of fx o k new nk new (if fx_meta fx then tn_meta nk else None))] /\
+                  Forall (fun x => exists a t, x = OpOverride a t /\ In a (tl_keys L) /\ a <> k) ov) /\
+      forall st : store, files_of L st ->
+        exists st' : store,
+          apply_edits ops st = Some st' /\
+          st' new = Some (text_of fx o k new nk new (if fx_meta fx then tn_meta nk else None)) /\
+          st' k = None /\
+          (forall n, In n L -> tn_key n <> k ->
+             st' (tn_key n) = if tree_refers k (tn_tree n)
+                              then Some (text_of fx o k new n (tn_key n) (tn_meta n))
+                              else st (tn_key n)) /\
+          (forall s, ~ In s (tl_keys L) -> s <> new -> st' s = None).
+Theorem C08_subdir : C08_subdir_stmt.
+Proof. exact rename_subdir. Qed.
+Check C08_subdir : C08_subdir_stmt.
+Print Assumptions C08_subdir.
+
+(* rename does not panic: with the dangling-link and the one-key repairs in, rename_core answers
+   for every library, every directory of the cursor's note, every site the reader found and
+   every new name, as long as the index answers; and so does handle_rename on a graph whose
+   library collects *)
+Definition C08_no_panic_stmt : Prop :=
+  (forall fx o (scan : scan_t) L doc s new_name,
+     fx_dangling fx = true -> fx_subdir fx = true ->
+     (forall key, exists r, scan key = Ok r) ->
+     exists r, rename_core fx o scan L doc (Ok s) new_name = Ok r) /\
+  (forall fx o (g : graph) tables L doc s new_name,
+     fx_dangling fx = true -> fx_subdir fx = true ->
+     tlib_of_graph g tables = Ok L ->
+     (forall key, exists r, index_scan (gr_arena g) key = Ok r) ->
+     exists r, handle_rename fx o g tables doc (Ok s) new_name = Ok r).
+Theorem C08_no_panic : C08_no_panic_stmt.
+Proof. exact (conj rename_core_total handle_rename_total). Qed.
+Check C08_no_panic : C08_no_panic_stmt.
+Print Assumptions C08_no_panic.
 
 (* C08_root is stated over the collected trees ([tree_scan]); handle_rename asks the index.
    The two agree whenever the index answers for the library's notes what a scan of their trees
@@ -139,12 +199,25 @@ Print Assumptions C08_text_inline_refuted.
 
 (* ---- the other defects of the unchanged tree, each with its witness ---------------------------- *)
 
-(* a rename issued from a note in a sub-directory panics, with or without the repairs
-   (`build_key(new_name)` vs `export_key(from_rel_link_url(new_name, dir))`) *)
+(* a rename issued from a note in a sub-directory: as found (whatever the other repairs) a panic,
+   `build_key(new_name)` vs `export_key(from_rel_link_url(new_name, dir))`; with the one-key repair
+   the name typed over the placeholder `../k` is read from d/ like the placeholder (`new` -> d/new,
+   `../new` -> new, `b` -> d/b is taken); the same for a name not spelled like its key (`./new`) *)
 Definition C08_subdir_refuted_stmt : Prop :=
-  forall fx, rename_core fx o0 tree_scan W2 "d/b" (Ok (Some "../k")) "new" = Panic "to have key".
+  (forall l m d, rename_core (FX l m d false) o0 tree_scan W2 "d/b" (Ok (Some "../k")) "new" = Panic "to have key") /\
+  (forall l m d,
+     rename_core (FX l m d true) o0 tree_scan W2 "d/b" (Ok (Some "../k")) "new"
+     = Ok (REdits [OpOverride "d/b" ("[K](new)" +++ LFS); OpDelete "k"; OpCreate "d/new"; OpInsert "d/new" ("# K" +++ LFS)]) /\
+     rename_core (FX l m d true) o0 tree_scan W2 "d/b" (Ok (Some "../k")) "../new"
+     = Ok (REdits [OpOverride "d/b" ("[K](../new)" +++ LFS); OpDelete "k"; OpCreate "new"; OpInsert "new" ("# K" +++ LFS)]) /\
+     rename_core (FX l m d true) o0 tree_scan W2 "d/b" (Ok (Some "../k")) "b"
+     = Ok (RErr (taken_msg "b"))) /\
+  (forall l m d,
+     rename_core (FX l m d false) o0 tree_scan W2 "k" (Ok (Some "k")) "./new" = Panic "to have key" /\
+     rename_core (FX l m d true) o0 tree_scan W2 "k" (Ok (Some "k")) "./new"
+     = Ok (REdits [OpOverride "d/b" ("[K](../new)" +++ LFS); OpDelete "k"; OpCreate "new"; OpInsert "new" ("# K" +++ LFS)])).
 Theorem C08_subdir_refuted : C08_subdir_refuted_stmt.
-Proof. exact subdir_panics. Qed.
+Proof. exact (conj subdir_panics_as_found (conj subdir_renames_repaired unspelled_name_as_found_and_repaired)). Qed.
 Check C08_subdir_refuted : C08_subdir_refuted_stmt.
 Print Assumptions C08_subdir_refuted.
 
